@@ -1,12 +1,27 @@
 (* C06 - HTTP announce/scrape parsing is total and faithful to the query.
    This file contains only statements, each closed by [exact] of a lemma from
-   Proofs/HttpParseP.v / Proofs/QueryP.v, followed by Print Assumptions. *)
-From Chihaya Require Import Model.HttpParse Proofs.QueryP Proofs.HttpParseP.
+   Proofs/HttpParseP.v, followed by Print Assumptions.
+
+   Vocabulary (Model/HttpParse.v, Model/HttpRender.v):
+     parse_announce parse_ip header_get split_host opts uri remote_addr
+         model of frontend/http.ParseAnnounce; the first three arguments are
+         the oracles net.ParseIP, r.Header.Get and net.SplitHostPort (host part);
+         every theorem is universally quantified over them.
+     render_query sps    a query written with a per-byte escaping style
+                         (raw / %XX with either hex case per digit / '+'),
+                         '&' or ';' separators, optional bare keys.
+     logical, classify   the decoded (key, value) of a styled parameter, and
+                         its meaning (LIH v: an info_hash; LP k v: ordinary
+                         parameter under its lower-cased key).
+     omap fst            forgets the Params part (RawPath/RawQuery) of an
+                         accepted request.                                        *)
+From Chihaya Require Import Model.HttpParse Model.HttpRender Proofs.QueryP Proofs.HttpParseP.
+From Coq Require Import Permutation.
 Open Scope Z_scope.
 
-(* totality: for every URI, every oracle (net.ParseIP, Header.Get, SplitHostPort),
-   every remote address and every ParseOptions value the parser accepts or
-   rejects with a ClientError - it never panics, never yields an internal error *)
+(* totality: for every URI, every oracle, every remote address and every
+   ParseOptions value the parser accepts or rejects with a ClientError - it
+   never panics and never yields an internal error *)
 Theorem C06_http_parse_never_panics :
   forall (parse_ip : bytes -> option bytes) (header_get split_host : bytes -> bytes) o uri remote,
     (exists a, parse_announce parse_ip header_get split_host o uri remote = Accept a) \/
@@ -18,3 +33,102 @@ Theorem C06_http_scrape_never_panics : forall o uri,
     (exists a, parse_scrape o uri = Accept a) \/ (exists msg, parse_scrape o uri = Reject (ClientErr msg)).
 Proof. exact parse_scrape_total. Qed.
 Print Assumptions C06_http_scrape_never_panics.
+
+Theorem C06_http_reject_is_client_error :
+  forall (parse_ip : bytes -> option bytes) (header_get split_host : bytes -> bytes) o uri remote e,
+    parse_announce parse_ip header_get split_host o uri remote = Reject e -> exists msg, e = ClientErr msg.
+Proof. exact reject_is_client_error. Qed.
+Print Assumptions C06_http_reject_is_client_error.
+
+Theorem C06_http_scrape_reject_is_client_error : forall o uri e,
+    parse_scrape o uri = Reject e -> exists msg, e = ClientErr msg.
+Proof. exact scrape_reject_is_client_error. Qed.
+Print Assumptions C06_http_scrape_reject_is_client_error.
+
+(* faithfulness, escaping-style independence, order independence and
+   irrelevance of unrelated parameters in one law: if the multiset of decoded
+   parameters of a styled query is exactly {info_hash = f.ih} + the fields of f
+   + parameters whose lower-cased key is none of ParseAnnounce's names, then
+   the result is SanitizeAnnounce applied to exactly those fields *)
+Theorem C06_http_announce_roundtrip :
+  forall (parse_ip : bytes -> option bytes) (header_get split_host : bytes -> bytes)
+         o f path (sps : list sparam) (extra : list (bytes * bytes)) remote,
+    wf_fields f = true ->
+    Forall (fun p => sparam_ok p = true) sps ->
+    no_qmark path = true ->
+    Permutation (map classify (map logical sps)) (LIH (f_ih f) :: map LPp (field_params f ++ extra)) ->
+    Forall (fun kv : bytes * bytes => ~ In (fst kv) announce_keys) extra ->
+    omap fst (parse_announce parse_ip header_get split_host o (path ++ 63 :: render_query sps) remote) =
+    match parse_ip (fst (fields_ip_source header_get split_host o f remote)) with
+    | None => Reject (ClientErr E_ip)
+    | Some ip =>
+      match sanitize_announce (fields_req f ip (snd (fields_ip_source header_get split_host o f remote)))
+                              (o_max_numwant o) (o_default_numwant o) with
+      | inl e => Reject e
+      | inr r => Accept r
+      end
+    end.
+Proof. exact announce_roundtrip. Qed.
+Print Assumptions C06_http_announce_roundtrip.
+
+(* an earlier occurrence of a key that occurs again later is irrelevant *)
+Theorem C06_http_last_value_wins :
+  forall (parse_ip : bytes -> option bytes) (header_get split_host : bytes -> bytes)
+         o path remote s1 s s2 k v,
+    no_qmark path = true -> forallb seg_ok (s1 ++ s :: s2) = true ->
+    seg_sem s = SP k v ->
+    (exists s' v', In s' s2 /\ seg_sem s' = SP k v') ->
+    omap fst (parse_announce parse_ip header_get split_host o (path ++ 63 :: join_amp (s1 ++ s :: s2)) remote) =
+    omap fst (parse_announce parse_ip header_get split_host o (path ++ 63 :: join_amp (s1 ++ s2)) remote).
+Proof. exact last_value_wins. Qed.
+Print Assumptions C06_http_last_value_wins.
+
+(* permuting parameters with pairwise distinct effective keys preserves an
+   accepted request; a rejection stays a rejection (which of several
+   applicable reasons is reported may depend on the order) *)
+Theorem C06_http_parse_order_independent :
+  forall (parse_ip : bytes -> option bytes) (header_get split_host : bytes -> bytes)
+         o path remote segs segs',
+    no_qmark path = true -> forallb seg_ok segs = true ->
+    Permutation segs segs' -> NoDup (seg_keys segs) ->
+    (forall r, omap fst (parse_announce parse_ip header_get split_host o (path ++ 63 :: join_amp segs) remote) = Accept r ->
+               omap fst (parse_announce parse_ip header_get split_host o (path ++ 63 :: join_amp segs') remote) = Accept r) /\
+    (forall e, omap fst (parse_announce parse_ip header_get split_host o (path ++ 63 :: join_amp segs) remote) = Reject e ->
+               exists e', omap fst (parse_announce parse_ip header_get split_host o (path ++ 63 :: join_amp segs') remote) = Reject e').
+Proof. exact order_independent. Qed.
+Print Assumptions C06_http_parse_order_independent.
+
+(* accepted announces: port <> 0; numwant is the default when the parameter is
+   absent and min(explicit, max) otherwise; the IP has 4 bytes with family V4
+   or 16 bytes, not IPv4-mapped, with family V6 *)
+Theorem C06_http_accept_postconditions :
+  forall (parse_ip : bytes -> option bytes) (header_get split_host : bytes -> bytes) o uri remote r q,
+    parse_announce parse_ip header_get split_host o uri remote = Accept (r, q) ->
+    parse_url_data uri = inr q /\
+    p_port (r_peer r) <> 0 /\
+    ((q_string q k_numwant = None -> r_numwant r = o_default_numwant o) /\
+     (forall s, q_string q k_numwant = Some s ->
+                exists n, parse_uint 32 s = Some n /\ r_numwant r = Z.min n (o_max_numwant o))) /\
+    ((r_af r = V4 /\ length (p_ip (r_peer r)) = 4%nat) \/
+     (r_af r = V6 /\ length (p_ip (r_peer r)) = 16%nat /\ to4 (p_ip (r_peer r)) = None)).
+Proof. exact accept_postconditions. Qed.
+Print Assumptions C06_http_accept_postconditions.
+
+(* scrape: the infohashes come back in order of appearance, whatever the
+   escaping and the other parameters, truncated to the configured maximum *)
+Theorem C06_http_scrape_roundtrip : forall o path (sps : list sparam),
+    Forall (fun p => sparam_ok p = true) sps -> no_qmark path = true ->
+    (forall v, In v (lp_ihs (map classify (map logical sps))) -> length v = 20%nat) ->
+    omap fst (parse_scrape o (path ++ 63 :: render_query sps)) =
+    match lp_ihs (map classify (map logical sps)) with
+    | [] => Reject (ClientErr E_no_ih)
+    | ihs => Accept (sanitize_scrape ihs (o_max_scrape o))
+    end.
+Proof. exact scrape_roundtrip. Qed.
+Print Assumptions C06_http_scrape_roundtrip.
+
+Theorem C06_http_scrape_limit : forall o uri ihs q,
+    0 <= o_max_scrape o ->
+    parse_scrape o uri = Accept (ihs, q) -> Z.of_nat (length ihs) <= o_max_scrape o.
+Proof. exact scrape_limit. Qed.
+Print Assumptions C06_http_scrape_limit.
